@@ -152,7 +152,7 @@ namespace cnl {
     template<>
     [[nodiscard]] constexpr auto countr_zero(unsigned int x)
     {
-        return int{__builtin_ctz(x)};
+        return x ? int{__builtin_ctz(x)} : digits_v<unsigned int>;
     }
 
     template<>
